@@ -187,7 +187,8 @@ def load(ctx):
                 overloads.append(Overload(f["name"], s))
             except ValueError as e:
                 bad.append((f["name"], s, str(e)))
-    dynamic = {f["name"]: f["dynamic"] for f in sig["functions"] if f["dynamic"]}
+    overloads.sort(key=lambda o: (o.name, str(o.sig)))      # the table comes out of hash maps: make the workload a function of the seed only
+    dynamic = {f["name"]: f["dynamic"] for f in sorted(sig["functions"], key=lambda f: f["name"]) if f["dynamic"]}
     return overloads, dynamic, dict((n, t) for n, t in sig["types"]), bad
 
 
